@@ -98,7 +98,8 @@ def o1b(h, st):
     h.done()
 
 
-@contract("C08", "O2.operator_expectation", level="B", structures=lambda tier: [dict(c) for c in CONFIGS if c["ansatz"] in ("UCCSD", "HEA") and c["mapping"].lower() != "hcb"],
+@contract("C08", "O2.operator_expectation", level="B", structures=lambda tier: [dict(c) for c in CONFIGS if c["ansatz"] in ("UCCSD", "HEA") and c["mapping"].lower() != "hcb"]
+          + [dict(CONFIGS[0], defl=True), dict(CONFIGS[4], defl=True), dict(CONFIGS[0], proj=True)],
           native_samples=lambda st, rnd, tier: [{"seed": rnd.randint(0, 10 ** 6)}],
           targets=[(VQ, "VQESolver.operator_expectation")])
 def o2(h, st):
@@ -109,9 +110,16 @@ def o2(h, st):
     from tangelo.toolboxes.ansatz_generator import fermionic_operators as fo
     from tangelo.toolboxes.qubit_mappings.mapping_transform import fermion_to_qubit_mapping
     rnd = random.Random(int(h.integer("seed")))
-    s = build_solver(st)
+    extra = None
+    if st.get("defl"):
+        # deflation circuits concern the ENERGY only: symmetry expectation values are plain <psi|O|psi> (states with a large overlap with the deflated ones included)
+        from tangelo.linq import Circuit, Gate
+        extra = {"deflation_circuits": [Circuit([Gate("X", 0), Gate("X", 1)], n_qubits=4), Circuit([Gate("H", 0), Gate("CNOT", 1, 0)], n_qubits=4)], "deflation_coeff": 0.9}
+    s = build_solver({k: v for k, v in st.items() if k not in ("defl", "proj")}, extra)
     mol = s.molecule
     th = np.array([rnd.uniform(-1.0, 1.0) for _ in range(s.ansatz.n_var_params)])
+    if st.get("defl") and rnd.random() < 0.5:
+        th = th * 0.05            # close to the reference determinant: large overlap with the first deflated state
     ham = s.qubit_hamiltonian
     for name, fn in (("N", fo.number_operator), ("Sz", fo.spinz_operator), ("S^2", fo.spin2_operator)):
         val = h.call(VQ, "VQESolver.operator_expectation", s, name, th)
